@@ -33,7 +33,10 @@ MANIFEST = dict(
          "|x| >= 1, sqrt(sqr x) = x and sqr(sqrt x) = x for x >= 0, cbrt(x^3) = x for x <> 0 over "
          "the reals (stdlib real-number axioms), and for the hand-ported _mixed_unit_list: the parts add up to the "
          "value, there is one part per unit and all but the last are whole multiples of their unit, for arbitrary unit lists "
-         "(C23_mixed_sum, C23_mixed_whole) and for unit_list with its unique/sort-descending cleaning (C23_unit_list). NOT proved "
+         "(C23_mixed_sum, C23_mixed_whole), for positive unit sizes and a value >= 0 every step leaves 0 <= remainder < unit "
+         "and all parts are >= 0 (C23_mixed_positive), and for unit_list with its unique/sort-descending cleaning "
+         "(C23_unit_list); the aliases celsius/fahrenheit equal °C/°F (C23_temperature_aliases); a hand port of "
+         "reverse is an involution (C23_reverse). NOT proved "
          "(oracle/correspondence only): floating-point behaviour (tolerances), the FFI pairs sin/asin, cos/acos, "
          "tan/atan, sinh/asinh, cosh/acosh, tanh/atanh, exp/ln, log10, log2, "
          "the jiff calendar behind DateTime; the FFI pairs are oracle-only by nature (libm).",
@@ -45,9 +48,9 @@ MANIFEST = dict(
     technique="source-to-Gallina translator + Coq proofs over Q and R + implementation correspondence + round-trip oracle",
 )
 
-THEOREMS = ["C23_celsius", "C23_fahrenheit", "C23_julian", "C23_unixtime_int", "C23_unixtime_aligned",
+THEOREMS = ["C23_celsius", "C23_fahrenheit", "C23_temperature_aliases", "C23_julian", "C23_unixtime_int", "C23_unixtime_aligned",
             "C23_coth_acoth", "C23_acoth_coth", "C23_cot_acot", "C23_sech_asech", "C23_csch_acsch",
-            "C23_sec_arcsec", "C23_csc_acsc", "C23_sqrt_sqr", "C23_cbrt_cube", "C23_mixed_sum", "C23_mixed_whole", "C23_unit_list"]
+            "C23_sec_arcsec", "C23_csc_acsc", "C23_sqrt_sqr", "C23_cbrt_cube", "C23_mixed_sum", "C23_mixed_whole", "C23_mixed_positive", "C23_unit_list", "C23_reverse"]
 ALLOWED_AXIOMS = ["ClassicalDedekindReals.sig_forall_dec", "ClassicalDedekindReals.sig_not_dec",
                   "FunctionalExtensionality.functional_extensionality_dep", "Classical_Prop.classic"]
 # common.print_assumptions reads the header line "Axioms:" as a name and misses names whose type starts on the
@@ -58,7 +61,8 @@ MODS = os.path.join(common.REPO, "numbat", "modules")
 # module, wanted definitions (in source order), target
 Q_SOURCES = [
     ("physics/temperature_conversion.nbt",
-     ["_offset_celsius", "from_celsius", "°C", "_offset_fahrenheit", "_scale_fahrenheit", "from_fahrenheit", "°F"]),
+     ["_offset_celsius", "from_celsius", "°C", "celsius", "degree_celsius",
+      "_offset_fahrenheit", "_scale_fahrenheit", "from_fahrenheit", "°F", "fahrenheit", "degree_fahrenheit"]),
     ("datetime/unixtime.nbt",
      ["unix_s", "unix_ms", "unix_µs", "unixtime", "unixtime_s", "unixtime_ms", "unixtime_µs",
       "from_unixtime", "from_unixtime_s", "from_unixtime_ms", "from_unixtime_µs"]),
@@ -486,6 +490,9 @@ PAIRS = [
     ("fahrenheit", "°F(from_fahrenheit({x}))", (-459.0, 5000.0), (1e-9, 1e-9)),
     ("fahrenheit-rev", "from_fahrenheit(°F({x} K)) / K", (0.0, 5000.0), (1e-9, 1e-9)),
     ("celsius-syntax", "({x} °C) -> °C", (-273.0, 5000.0), (1e-9, 1e-9)),
+    ("celsius-alias", "degree_celsius(from_celsius({x})) + 0 × celsius(from_celsius({x}))", (-273.0, 5000.0), (1e-9, 1e-9)),
+    ("fahrenheit-alias", "degree_fahrenheit(from_fahrenheit({x})) + 0 × fahrenheit(from_fahrenheit({x}))", (-459.0, 5000.0), (1e-9, 1e-9)),
+    ("reverse∘reverse", "sum(reverse(reverse([{x}, 1, 2]))) - 3 + 0 × head(reverse(reverse([{x}, 7])))", (-1e6, 1e6), (1e-12, 1e-9)),
     ("fahrenheit-syntax", "({x} °F) -> °F", (-459.0, 5000.0), (1e-9, 1e-9)),
     ("sin/asin", "asin(sin({x}))", (-1.5, 1.5), (1e-9, 1e-9)),
     ("asin/sin", "sin(asin({x}))", (-1.0, 1.0), (1e-9, 1e-12)),
@@ -610,23 +617,23 @@ def run(chk):
     n_model = n_q = n_mixed_model = boundary_flips = 0
     model_cases = []
     if lib is not None:
-        model_cases = gen_model_cases(chk.rng, lib, 60 if quick else 600)
-    oracle_cases = gen_oracle_cases(chk.rng, 40 if quick else 400)
+        model_cases = gen_model_cases(chk.rng, lib, 35 if quick else 300)
+    oracle_cases = gen_oracle_cases(chk.rng, 25 if quick else 200)
     corpus = json.load(open(os.path.join(common.VERIF, "corpus", "c23.json")))
     for c in corpus:
         if "x" in c:
             oracle_cases.insert(0, (c["pair"], c["source"], c["x"], tuple(c["tol"])))
-    mixed_cases = gen_mixed_cases(chk.rng, 150 if quick else 2000)
+    mixed_cases = gen_mixed_cases(chk.rng, 100 if quick else 800)
     # the documented wrappers of unit_list (units::mixed)
     WRAPPERS = [("DMS", ["degree", "arcminute", "arcsecond"], "degree"), ("DM", ["degree", "arcminute"], "degree"),
                 ("feet_and_inches", ["foot", "inch"], "foot"), ("pounds_and_ounces", ["pound", "ounce"], "pound")]
     wrapper_cases = []
-    for _ in range(40 if quick else 600):
+    for _ in range(40 if quick else 300):
         fn, us, vu = chk.rng.choice(WRAPPERS)
         v = chk.rng.choice([chk.rng.uniform(0, 400), float(chk.rng.randrange(0, 400)), chk.rng.randrange(1, 10 ** 5) / 3600.0,
                             -chk.rng.uniform(0, 90), chk.rng.randrange(1, 1000) / 12.0])
         wrapper_cases.append((fn, us, v, vu))
-    dt_cases = gen_datetime_oracle_cases(chk.rng, 80 if quick else 1500)
+    dt_cases = gen_datetime_oracle_cases(chk.rng, 60 if quick else 600)
     for c in corpus:
         if c.get("kind") in ("Q", "D"):
             dt_cases.insert(0, (c["pair"], c["source"], c["kind"], c["expected"], c["tol"]))
@@ -639,7 +646,7 @@ def run(chk):
     lines = [c[2] for c in model_cases] + [c[1] for c in oracle_cases] + \
             ["unit_list([%s], %s %s)" % (", ".join(us), fl(v), vu) for us, v, vu in mixed_cases] + [c[1] for c in dt_cases] + \
             ["%s(%s %s)" % (fn, fl(v), vu) for fn, us, v, vu in wrapper_cases]
-    outs = common.run_harness(binary, "eval", lines)
+    outs = common.run_harness(binary, "eval", lines, timeout=3000)
     o_wrap = outs[len(lines) - len(wrapper_cases):]
     o_dt = outs[len(model_cases) + len(oracle_cases) + len(mixed_cases):len(lines) - len(wrapper_cases)]
     o_model = outs[:len(model_cases)]
@@ -673,7 +680,7 @@ def run(chk):
                 want = lib.call(name, [a], True)
                 items.append(("show_Q (%s %s)" % (coq_name(name), coq_q(a)), "%d/%d" % (want.numerator, want.denominator)))
         n_q = len(items)
-        coq_bad = common.coq_mismatches(["Stdlib.Model", "Gen.NbtFunsQ", "Stdlib.Exec"], items, "c23", shard_size=150, prelude="From Coq Require Import QArith.")
+        coq_bad = common.coq_mismatches(["Stdlib.Model", "Gen.NbtFunsQ", "Stdlib.Exec"], items, "c23", shard_size=150, timeout=3000, prelude="From Coq Require Import QArith.")
         # hand-ported mixed-unit list against the implementation: the model runs on the exact rationals of
         # the f64 inputs; parts are compared with a tolerance, and a difference of a whole number of units
         # between neighbouring parts (truncation at a float boundary) is counted, not reported
@@ -683,7 +690,7 @@ def run(chk):
             mclean.append(clean)
             mterms.append(("show_mixed (unit_list [%s]%%list %s)" % (
                 "; ".join(coq_q(Fraction(sizes[u])) for u in us), coq_q(Fraction(v) * Fraction(sizes[vu]))), "@"))
-        mstr = common.coq_mismatches(["Stdlib.Model", "Stdlib.Exec"], mterms, "c23m", shard_size=100, prelude="From Coq Require Import QArith.")
+        mstr = common.coq_mismatches(["Stdlib.Model", "Stdlib.Exec"], mterms, "c23m", shard_size=100, timeout=3000, prelude="From Coq Require Import QArith.")
         for i, ((us, v, vu), o) in enumerate(zip(mixed_cases, o_mixed)):
             n_mixed_model += 1
             ms = mstr.get(i, "@")
